@@ -429,6 +429,16 @@ impl Model {
         if !self.has_validation() {
             return Expect::Either;
         }
+        // a file from another tool may describe, in _Validation, tables it
+        // does not contain: the new rows would collide with those
+        if let Some(v) = self.tables.get("_Validation") {
+            for c in cols.iter() {
+                let key = [Val::Str(name.to_string()), Val::Str(c.name.clone())];
+                if v.rows.iter().any(|r| r[0] == key[0] && r[1] == key[1]) {
+                    return Expect::Err;
+                }
+            }
+        }
         if name.chars().count() > 32 || !cols.iter().all(col_is_plain) {
             return Expect::Either;
         }
